@@ -67,6 +67,6 @@ BadIdsEnd == (last.op = "Recv" /\ last.kind \notin {"bad"} /\ last.enforce /\ ~l
 NoRevival == ~(Moved /\ prev = StTerm /\ s = StCont)
 \*   a supervision tick replaces an outstanding ResendRequest state by test_request_sent
 NoResendStateLostToTick == ~(Moved /\ prev = StResendSent /\ s = StTestReqSent)
-\*   every live state is reachable
-AllReached == ~(s = StResendRecv)
+\*   the resend state is reachable
+AllReached == ~(s = StResendSent /\ prev = StCont)
 =============================================================================
